@@ -1193,7 +1193,12 @@ class SyncInterpreter(BaseInterpreter[TContext, TEvent]):
                 if on_complete is not None:
                     self._queue_actor_done(child, on_complete)
                 child.stop()
-                self._actors.pop(actor_id, None)
+                # 🧹 Only drop the registration if it is still OURS. After
+                #    `stopChild` a new actor may already have been spawned
+                #    under the same explicit id; popping unconditionally
+                #    removed that new child from the children map.
+                if self._actors.get(actor_id) is child:
+                    self._actors.pop(actor_id, None)
                 logger.info("🧹 Actor thread for '%s' cleaned up.", actor_id)
 
         # 🚀 Start the thread
